@@ -25,10 +25,10 @@ func c18(tier string) int {
 func init() { table["C19"] = c19 }
 
 func c19(tier string) int {
-	plans := []enum.Plan{{Family: "codec-roundtrip"}, {Family: "codec-decode"}}
+	plans := []enum.Plan{{Family: "codec-roundtrip"}, {Family: "codec-decode"}, {Family: "codec-fixture"}}
 	return enumCheck("C19", tier, 60*time.Second, 3*time.Minute, plans,
 		"encode through repository/file.Repo.Set and decode through Repo.GetAll (recording provider) against an independent codec of the documented layout: keys = all byte strings of length <= 3 over {00,'a',80,ff}, lengths 4..64, 255, 256, 65535; sequences = 0, 1, every single bit, every ff-prefix, 2^64-1; all 36 pairs of six boundary UUIDs; decoding of all lengths 0..41 with each position class filled from a 3-symbol alphabet, every truncation of a valid record, golden vector (bytes written down in the harness)",
-		[]string{"the pinned-revision Badger directory fixture is part of the real-engine conformance tier (DESIGN.md §2.9), not of this enumeration"})
+		[]string{"family codec-fixture: a database directory written by the pinned revision (42f3f3c) through the public API on the real Badger engine — /verif/fixtures/pinned_db.tar, with overwritten, deleted, committed and abandoned records — is opened by the current tree on the real engine and must serve exactly its recorded contents"})
 }
 
 func init() { table["C20"] = c20 }
